@@ -21,7 +21,8 @@ func init() {
 			"(L) lifecycle pairing in NewConnection: reader and writer goroutines cancel the connection context on every exit, a third goroutine closes the backend websocket once the context is done, the dial-error path cancels and starts nothing, the reader is the sole sender/closer of serverMessages; Close() makes the writer exit after the close frame. " +
 			"Not decided: that gorilla's WriteMessage returns in bounded time on a dead peer. " +
 			"(S) concurrent opens get distinct session IDs (atomic fetch-and-increment); a poll that already took messages delivers them before a later poll reports the closed session. " +
-			"Every connections.Delete (also in nested callbacks) belongs to the close or poll endpoint; a non-blocking closed-test dominates the select that enqueues a client message.",
+			"Every connections.Delete (also in nested callbacks) belongs to the close or poll endpoint; a non-blocking closed-test dominates the select that enqueues a client message." +
+			" Each queue has one receiving side; ReadServerMessages reports an error only on the not-ok branch of a receive from serverMessages; Close() does not queue the close frame behind a test of the closed channel; session-table keys are of a comparable concrete type.",
 		Assumptions: []string{"sync.Map, sync.Once and context cancellation behave as documented", "gorilla/websocket Conn.Close unblocks a pending ReadMessage"},
 		Run:         runC12,
 	})
